@@ -85,5 +85,5 @@ MStep ==
 
 MSpec == MInit /\ [][MStep]_mvars
 (* reporting invariant (always true): one JSON line per complete execution; bad = "" when it was clean *)
-Report == (status[1] # "run") => PrintT(ToJson([pid |-> pid, dec |-> dec, inp |-> inp, bad |-> bad, log |-> log, out |-> Out, xlog |-> xlog, xnode |-> xnode, xfirst |-> xfirst, delx |-> delx, oc |-> oc, finx |-> finx]))
+Report == (status[1] # "run") => PrintT(ToJson([pid |-> pid, dec |-> dec, inp |-> inp, bad |-> bad, log |-> log, out |-> Out, xlog |-> xlog, xnode |-> xnode, xfirst |-> xfirst, delx |-> delx, oc |-> oc, finx |-> finx, gl |-> Globals]))
 =============================================================================
